@@ -654,8 +654,8 @@ class Enumerator:
         subs = self.subexprs(e)
         def _has_branch(x, depth=0):
             x = peel(x)
-            if x.get("k") in ("If", "Match"):
-                return True
+            if x.get("k") in ("If", "Match") or (k == "Tup" and depth == 0 and x.get("k") == "Block" and x.get("stmts") and not macro_of(x)):
+                return True      # (a tuple component computed by a block -- typically an inlined helper -- is its tail value)
             if self.combinators and x.get("k") == "MethodCall" and x.get("name") in ("map", "and_then", "map_err", "map_or", "map_or_else", "or_else", "then") \
                     and any(peel(a_).get("k") == "Closure" for a_ in x.get("args") or []):
                 return True
